@@ -111,7 +111,7 @@ package json
 //@   ensures (result == nil) == old(0 <= n.exp && n.exp <= len(n.nat))
 //@   ensures result == nil ==> wfNumber(*n) && (intLen(*n) > 0 ==> n.nat[0] != '0') && n.nat.$arr == old(n.nat.$arr)
 //@   ensures result == nil ==> (exists d :: 0 <= d && d <= old(intLen(*n)) && len(n.nat) == old(len(n.nat)) - d && n.nat.$off == old(n.nat.$off) + d && (forall j :: 0 <= j && j < d ==> old(n.nat[j]) == '0'))
-//@   ensures result != nil ==> n.nat == old(n.nat)
+//@   ensures result != nil ==> n.nat == old(n.nat) && !libErr(result)
 //@   loop 0 invariant 0 <= intLen && intLen == len(n.nat) - n.exp && n.exp == old(n.exp) && n.nat.$arr == old(n.nat.$arr)
 //@   loop 0 invariant n.nat.$off + len(n.nat) == old(n.nat.$off + len(n.nat)) && n.nat.$off >= old(n.nat.$off) && cap(n.nat) >= len(n.nat)
 //@   loop 0 invariant forall j :: 0 <= j && j < n.nat.$off - old(n.nat.$off) ==> old(n.nat[j]) == '0'
@@ -126,22 +126,39 @@ package json
 //@   ensures (result == nil) == old(0 <= n.exp && n.exp <= len(n.nat))
 //@   ensures result == nil ==> wfNumber(*n) && (n.exp > 0 ==> n.nat[len(n.nat)-1] != '0') && n.nat.$arr == old(n.nat.$arr) && n.nat.$off == old(n.nat.$off)
 //@   ensures result == nil ==> intLen(*n) == old(intLen(*n)) && len(n.nat) <= old(len(n.nat)) && (forall j :: len(n.nat) <= j && j < old(len(n.nat)) ==> old(n.nat[j]) == '0')
-//@   ensures result != nil ==> n.nat == old(n.nat) && n.exp == old(n.exp)
+//@   ensures result != nil ==> n.nat == old(n.nat) && n.exp == old(n.exp) && !libErr(result)
 //@   loop 0 invariant 0 <= n.exp && n.exp <= len(n.nat) && len(n.nat) - n.exp == old(len(n.nat) - n.exp) && n.nat.$arr == old(n.nat.$arr) && n.nat.$off == old(n.nat.$off) && len(n.nat) <= old(len(n.nat))
 //@   loop 0 invariant forall j :: len(n.nat) <= j && j < old(len(n.nat)) ==> old(n.nat[j]) == '0'
 //@   loop 0 decreases n.exp
 
-// NewNumber: ASSUMED for now (the numeral scanner is not yet under contract):
-// a successfully scanned number is in normal form; parseOK/parsedCmp/precLen
-// are defined by this contract.
-//@ func NewNumber(b)
-//@   props C10 C02
-//@   trusted "numeral scanner (internal/json/scanner.go) not yet verified: result assumed to be a fresh Number in normal form denoting the numeral"
+// NewNumber: the numeral scanner is verified for SHAPE (the result is a fresh
+// Number in normal form; no panic). What a numeral MEANS is definitional:
+// parseOK(b) := "NewNumber accepts b", precLen(b) := the fraction length of the
+// result, parsedCmp(a, b) := the exact comparison of a with the result.
+//@ func newScanner()
+//@   props C10
 //@   nopanic
-//@   ensures (result1 == nil) == parseOK(b)
-//@   ensures result1 == nil ==> result0 != nil && fresh(result0) && normNumber(*result0) && result0.exp == precLen(b)
-//@   ensures result1 == nil ==> (forall a Number {cmpExact(a, *result0)} :: cmpExact(a, *result0) == parsedCmp(a, b))
-//@   ensures result1 != nil ==> tag(result1) != typetag(errors.DocumentError)
+//@   ensures fresh(result) && result.stateFn != nil && result.index == 0 && result.intLen == 0 && result.fraLen == 0 && result.expBegin == 0 && !result.negative && !result.finished
+
+//@ func (*scanner).Scan(value)
+//@   props C10
+//@   requires s != nil && s.stateFn != nil && s.intLen == 0 && s.fraLen == 0 && s.expBegin == 0 && !s.finished && len(value) <= 1000000000000
+//@   nopanic
+//@   modifies *s
+//@   ensures result1 == nil ==> result0 != nil && fresh(result0) && normNumber(*result0)
+//@   ensures result1 != nil ==> !libErr(result1)
+//@   loop 0 invariant s.stateFn != nil && 0 <= s.intLen && 0 <= s.fraLen && s.intLen + s.fraLen <= rangeindex + 1 && 0 <= s.expBegin && s.expBegin <= (rangeindex >= 0 ? rangeindex : 0) && (rangeindex < 0 ==> !s.finished)
+//@   loop 0 decreases len(value) - rangeindex
+
+//@ func NewNumber(b)
+//@   props C10 C02 C07
+//@   requires len(b) <= 1000000000000
+//@   nopanic
+//@   defines (result1 == nil) == parseOK(b)
+//@   ensures result1 == nil ==> result0 != nil && fresh(result0) && normNumber(*result0)
+//@   defines result1 == nil ==> result0.exp == precLen(b)
+//@   defines result1 == nil ==> (forall a Number {cmpExact(a, *result0)} :: cmpExact(a, *result0) == parsedCmp(a, b))
+//@   ensures result1 != nil ==> !libErr(result1) && tag(result1) != typetag(errors.DocumentError)
 
 // ---- literal kinds (C01: the JSON-kind side of the compatibility matrix) ----
 
@@ -208,6 +225,20 @@ package json
 //@   nopanic
 //@   ensures result == jsonTokenStr(t)
 
+// ---- the numeral scanner as a whole ----
+// The current state is a method value stored in s.stateFn. Every value stored
+// there is a method of s itself that refines this contract (checked at each
+// store), so a call through the field is specified by it: one more byte is
+// consumed, at most one of the two digit counters grows by one, the exponent
+// start is recorded at most once (at the current index), the next state is set.
+//@ functype scanner.stateFn(s, c)
+//@   requires s != nil && s.stateFn != nil && 0 <= s.index && s.index < 1000000000000 && 0 <= s.intLen && 0 <= s.fraLen && s.intLen + s.fraLen <= s.index && 0 <= s.expBegin && s.expBegin <= s.index
+//@   nopanic
+//@   modifies s.negative, s.finished, s.stateFn, s.intLen, s.fraLen, s.expBegin
+//@   ensures s.stateFn != nil
+//@   ensures s.intLen >= old(s.intLen) && s.fraLen >= old(s.fraLen) && s.intLen + s.fraLen <= old(s.intLen) + old(s.fraLen) + 1
+//@   ensures s.expBegin == old(s.expBegin) || (old(s.expBegin) == 0 && s.expBegin == s.index)
+
 // ---- C10: "numeral -> (sign, digit string, fractional length) with exponent
 // folded in": the steps of the numeral scanner, one by one.  (Scan itself calls
 // the current state through a function-valued field and stays an assumed
@@ -216,6 +247,7 @@ package json
 
 //@ func (*scanner).stateOnSearchStart(c)
 //@   props C10
+//@   refines scanner.stateFn
 //@   requires s != nil && 0 <= s.intLen && s.intLen < 1000000000000000
 //@   nopanic
 //@   modifies s.negative, s.finished, s.stateFn, s.intLen
@@ -226,6 +258,7 @@ package json
 
 //@ func (*scanner).stateMinusFound(c)
 //@   props C10
+//@   refines scanner.stateFn
 //@   requires s != nil && 0 <= s.intLen && s.intLen < 1000000000000000
 //@   nopanic
 //@   modifies s.stateFn, s.intLen
@@ -234,6 +267,7 @@ package json
 // after a leading zero only a fraction may follow ("01" is not a number; nor, on this tree, "0e1")
 //@ func (*scanner).stateFirstZeroFound(c)
 //@   props C10
+//@   refines scanner.stateFn
 //@   requires s != nil
 //@   nopanic
 //@   modifies s.finished, s.stateFn
@@ -241,6 +275,7 @@ package json
 
 //@ func (*scanner).stateIntegerNumberFound(c)
 //@   props C10
+//@   refines scanner.stateFn
 //@   requires s != nil && 0 <= s.intLen && s.intLen < 1000000000000000
 //@   nopanic
 //@   modifies s.finished, s.stateFn, s.intLen
@@ -251,6 +286,7 @@ package json
 
 //@ func (*scanner).statePointFound(c)
 //@   props C10
+//@   refines scanner.stateFn
 //@   requires s != nil && 0 <= s.fraLen && s.fraLen < 1000000000000000
 //@   nopanic
 //@   modifies s.stateFn, s.fraLen
@@ -258,6 +294,7 @@ package json
 
 //@ func (*scanner).stateFractionalNumberFound(c)
 //@   props C10
+//@   refines scanner.stateFn
 //@   requires s != nil && 0 <= s.fraLen && s.fraLen < 1000000000000000
 //@   nopanic
 //@   modifies s.finished, s.stateFn, s.fraLen
@@ -269,6 +306,7 @@ package json
 // the exponent digits (with a '-' sign, never a '+') start at expBegin, recorded once
 //@ func (*scanner).stateExpFound(c)
 //@   props C10
+//@   refines scanner.stateFn
 //@   requires s != nil
 //@   nopanic
 //@   modifies s.finished, s.stateFn, s.expBegin
@@ -280,6 +318,7 @@ package json
 
 //@ func (*scanner).stateExpSignFound(c)
 //@   props C10
+//@   refines scanner.stateFn
 //@   requires s != nil
 //@   nopanic
 //@   modifies s.stateFn, s.expBegin
@@ -289,6 +328,7 @@ package json
 
 //@ func (*scanner).stateExpNumberFound(c)
 //@   props C10
+//@   refines scanner.stateFn
 //@   nopanic
 //@   ensures result == isDigit(c)
 
@@ -313,7 +353,7 @@ package json
 //@   modifies s.intLen, s.fraLen
 //@   ensures s.expBegin == 0 ==> result == nil && s.intLen == old(s.intLen) && s.fraLen == old(s.fraLen)
 //@   ensures result == nil ==> mathint(s.intLen) + mathint(s.fraLen) == old(s.intLen) + old(s.fraLen) || s.intLen - old(s.intLen) > 4000000000000000000 || old(s.intLen) - s.intLen > 4000000000000000000
-//@   ensures result != nil ==> s.intLen == old(s.intLen) && s.fraLen == old(s.fraLen)
+//@   ensures result != nil ==> s.intLen == old(s.intLen) && s.fraLen == old(s.fraLen) && !libErr(result)
 //@   ensures result == nil && s.expBegin != 0 && 0 - 1000000000000000 < intValOf(value[s.expBegin:]) && intValOf(value[s.expBegin:]) < 1000000000000000 ==> s.intLen == old(s.intLen) + intValOf(value[s.expBegin:]) && s.fraLen == old(s.fraLen) - intValOf(value[s.expBegin:])
 
 // the digits of the mantissa (everything before the first byte that is not a
